@@ -51,7 +51,7 @@ PROP = {
                   "in attach/detach/remove/admin update, doc.push in pushPack) is taken under exactly the expected condition, written down per handler "
                   "with the check-then-act pair it makes atomic (`attachment_lock_conditions`, `conditional_acquisitions_expected`); "
                   "(named-lock layer, unbounded sessions and interleavings, induction over the package's own mutex sections) pkg/locker's reference "
-                  "count equals the number of users (+ references leaked by failed TryLocks), an entry in use is never deleted or replaced, a holder's "
+                  "count equals the number of users exactly (a failed TryLock gives its reference back), the map is empty whenever nobody uses the locker (map_empty_when_idle), an entry in use is never deleted or replaced, a holder's "
                   "Unlock never returns ErrNoSuchLock, mutual exclusion per name; the variant `TryLock takes a reference only on creation` is refuted "
                   "by a three-party schedule; "
                   "tie: lock recorder on a real server under free-running parallel load – every observed per-request sequence is an "
